@@ -423,6 +423,79 @@ let buckets file =
    with End_of_file -> ());
   close_in ic
 
+(* ---- rabuf: the extracted model of rabuf::BufFile (Cache.v, module Rabuf) on the op lines of
+   `harness rabuf`.  One line per op; after `panic:*`, `err` or `hang` nothing more is printed
+   (the state of the real object after an unwound call is not specified). *)
+let rec nat_of_int (i : int) : nat = if i <= 0 then O else S (nat_of_int (i - 1))
+let rabuf_fuel = lazy (nat_of_int 100000)
+
+let rabuf file =
+  let open Rabuf in
+  let ic = open_in file in
+  let disk : bytes ref = ref [] in
+  let cur : cache option ref = ref None in
+  let sum b = Printf.sprintf "%d:%x" (List.length b) (fnv b) in
+  let stop s = print_endline s; Stdlib.flush stdout; exit 0 in
+  let bad = function Panic t -> stop ("panic:" ^ tagname t) | IoErr -> stop "err" | OutOfFuel -> stop "hang" | Ok _ -> assert false in
+  let num s = pos_of_decimal s in
+  let signed s = if String.length s > 0 && s.[0] = '-' then (true, num (String.sub s 1 (String.length s - 1))) else (false, num s) in
+  let run_op (o : op) : string =
+    match !cur with
+    | None -> "nohandle"
+    | Some c ->
+      (match cstep (Lazy.force rabuf_fuel) c o with
+       | Ok (c1, r) ->
+         cur := Some c1;
+         (match r with RUnitC -> "ok" | RPos p -> decimal_of_n p | RData b -> show b | RCount k -> decimal_of_n k)
+       | e -> bad e) in
+  (try
+     while true do
+       let line = String.trim (input_line ic) in
+       if line <> "" && line.[0] <> '#' then begin
+         let t = List.filter (fun s -> s <> "") (String.split_on_char ' ' line) in
+         let a i = List.nth t i in
+         let s =
+           match a 0 with
+           | "open" ->
+             (match !cur with Some c -> disk := close c | None -> ());
+             let r = match a 1 with
+               | "cap" -> open_cap (num (a 2)) (num (a 3)) !disk
+               | "permille" -> open_permille (num (a 2)) (num (a 3)) !disk
+               | "auto" -> open_auto !disk
+               | "size" -> open_param (BSizeP (num (a 2))) !disk
+               | "pm" -> open_param (BPerMilleP (num (a 2))) !disk
+               | _ -> failwith "open" in
+             (match r with Ok c -> cur := Some c; "ok" | e -> cur := None; bad e)
+           | "seek" ->
+             let (neg, x) = signed (a 2) in
+             run_op (OSeek (match a 1 with "start" -> SeekStart x | "end" -> SeekEnd (neg, x) | "cur" -> SeekCur (neg, x) | _ -> failwith "seek"))
+           | "read" -> run_op (ORead (num (a 1)))
+           | "readp" -> run_op (OReadPart (num (a 1)))
+           | "reads" -> run_op (OReadSmall (true, num (a 1), num (a 1)))
+           | "readms" | "readu" -> run_op (OReadSmall (false, num (a 1), num (a 1)))
+           | "readm" -> if int_of_string (a 1) > 8 then stop "panic:DebugAssert" else run_op (OReadSmall (false, n_of_int 8, num (a 1)))
+           | "write" -> run_op (OWrite (unhex (a 1)))
+           | "writep" -> run_op (OWritePart (unhex (a 1)))
+           | "writes" -> run_op (OWriteSmall (true, unhex (a 1)))
+           | "writeu" | "write64" -> run_op (OWriteSmall (false, unhex (a 1)))
+           | "writez" -> run_op (OWriteSmall (false, List.init (int_of_string (a 1)) (fun _ -> N0)))
+           | "flush" -> run_op OFlush
+           | "syncall" -> run_op (OSync true)
+           | "syncdata" -> run_op (OSync false)
+           | "setlen" -> run_op (OSetLen (num (a 1)))
+           | "prepare" -> run_op (OPrepare (num (a 1)))
+           | "clear" -> run_op OClear
+           | "fill" -> run_op OFill
+           | "close" -> (match !cur with Some c -> disk := close c; cur := None; "ok" | None -> "nohandle")
+           | "disk" -> sum (match !cur with Some c -> c.k_disk | None -> !disk)
+           | other -> failwith ("rabuf op " ^ other) in
+         print_endline s;
+         Stdlib.flush stdout
+       end
+     done
+   with End_of_file -> ());
+  close_in ic
+
 (* the Coq reader [Load.load] (proved: load (render s) = s) on real files *)
 let read_file path : bytes =
   let ic = open_in_bin path in
@@ -447,6 +520,7 @@ let load_files dir name =
 let () =
   match Array.to_list Sys.argv with
   | [ _; "load"; dir; name ] -> load_files dir name
+  | [ _; "rabuf"; file ] -> rabuf file
   | _ :: "run" :: file :: rest ->
     (match rest with "--dump" :: d :: _ -> dumpdir := Some d | _ -> ());
     run_ops file
